@@ -40,7 +40,14 @@ RANGES = [(0.0, 1.0), (-1.0, 3.0), (0.5, 0.75), (-10.0, 10.0)]
 
 
 def check_export(ctx, fl, e, n, v, scope, k, decimals=3, sep=" ", headers=True, inputs=True, outputs=True):
-    ex = fl.FldExporter(separator=sep, headers=headers, input_values=inputs, output_values=outputs)
+    # every second export goes through ONE long-lived exporter whose public options are re-assigned between exports
+    pool = check_export.__dict__.setdefault("pool", {"n": 0})
+    pool["n"] += 1
+    if pool["n"] % 2 and "ex" in pool:
+        ex = pool["ex"]
+        ex.separator, ex.headers, ex.input_values, ex.output_values = sep, headers, inputs, outputs
+    else:
+        ex = pool["ex"] = fl.FldExporter(separator=sep, headers=headers, input_values=inputs, output_values=outputs)
     sc = fl.FldExporter.ScopeOfValues.AllVariables if scope == "all" else fl.FldExporter.ScopeOfValues.EachVariable
     case = {"inputs": n, "values": v, "scope": scope, "decimals": decimals, "separator": sep, "headers": headers, "input_values": inputs, "output_values": outputs}
     cube = "perfect-power" if (scope == "all" and round(v ** (1 / n)) ** n == v and n > 1) else "generic"
